@@ -68,6 +68,7 @@ func runC09(c *Ctx, r *Report) {
 	r.Rule("R09.9", "the sort verb is stable, as its usage says: every sort call in the sort, top and sort-within-records verbs is a stable sort or a sort of plain strings — records that compare equal under the chosen comparators (also with different key texts, e.g. 1 and 1.0 under -nf) keep their input order")
 	checkStableSorts(c, r, "R09.9", []string{"sort.go", "top.go", "sort_within_records.go", "sort_within_records_values.go"}, 2)
 	c09Twins(c, r)
+	c09WorkingCopy(c, r)
 	// ---- R09.1
 	r.Rule("R09.1", "the collation matrix mlrval.cmp_dispositions is a total preorder on kinds: constant cells are -1/0/+1; [a][b] = -1 ⇔ [b][a] = +1, 0 ⇔ 0, kernel ⇔ kernel; 'a before b' is transitive and total; the order is numerics < boolean < {empty,string} < bytes < array < map < function < error < JSON-null < absent, with INT/FLOAT and VOID/STRING one class each")
 	S := func(i, j int) string { return intCellSummary(c, ct.Cell(i, j)) }
